@@ -32,6 +32,8 @@ func C07(r *core.Report) {
 	c07OptionPointersDistinct(r)
 	rangeSelectionInclusive(r, "C07.R8")
 	c07EveryFoundEntryAnswered(r)
+	slotWalkStopsOnlyBelowRange(r, "C07.R10")
+	r.Floor("C07.R10", 1)
 	r.Floor("C07.R9", 1)
 	r.Floor("C07.R8", 1)
 	r.Floor("C07.R1", 3)
@@ -1038,4 +1040,117 @@ func singleDefTuple(f *core.Func, o types.Object) *ast.CallExpr {
 		return true
 	})
 	return out
+}
+
+// slotWalkStopsOnlyBelowRange (C07.R10 / C19.R10): the slot-window walk goes from newer to older entries and `until` is
+// the lowest slot that still belongs to the window. The walk may be abandoned (break / continue of the outer loops,
+// return) because of `until` only where an entry strictly below it was seen; a stop under `<= until` gives up while
+// entries of the slot `until` itself may still follow in the next batch.
+func slotWalkStopsOnlyBelowRange(r *core.Report, rule string) {
+	p := r.Prog
+	f := r.Anchor(rule, "gsfa.(*GsfaReaderMultiepoch).iterBeforeUntilSlot")
+	if f == nil {
+		return
+	}
+	info := f.Pkg.TypesInfo
+	g := p.Graph(f)
+	until := f.ParamByName("until")
+	if until == nil {
+		r.Undecided(rule, f.Key+"#until", posP(r, f.Pos()), "parameter until not found")
+		return
+	}
+	tu := taintFrom(f, until)
+	tu[until] = true
+	n := 0
+	_ = g
+	// labelled branch statements and the conditions of the if statements around them (go/cfg turns branches into edges,
+	// so the guards are read off the syntax tree)
+	type guard struct {
+		Expr  ast.Expr
+		Truth bool
+	}
+	var branches []*ast.BranchStmt
+	guards := map[*ast.BranchStmt][]guard{}
+	var walk func(n ast.Node, gs []guard)
+	walk = func(n ast.Node, gs []guard) {
+		switch x := n.(type) {
+		case nil:
+			return
+		case *ast.FuncLit:
+			return
+		case *ast.IfStmt:
+			var conds []guard
+			for _, fct := range core.DecomposeCond(x.Cond, true) {
+				conds = append(conds, guard{fct.Expr, fct.Truth})
+			}
+			walk(x.Body, append(append([]guard(nil), gs...), conds...))
+			if x.Else != nil {
+				var neg []guard
+				for _, fct := range core.DecomposeCond(x.Cond, false) {
+					neg = append(neg, guard{fct.Expr, fct.Truth})
+				}
+				walk(x.Else, append(append([]guard(nil), gs...), neg...))
+			}
+			return
+		case *ast.BranchStmt:
+			if (x.Tok == token.BREAK || x.Tok == token.CONTINUE) && x.Label != nil {
+				branches = append(branches, x)
+				guards[x] = gs
+			}
+			return
+		}
+		ast.Inspect(n, func(m ast.Node) bool {
+			if m == n || m == nil {
+				return true
+			}
+			switch m.(type) {
+			case *ast.IfStmt, *ast.BranchStmt, *ast.FuncLit:
+				walk(m, gs)
+				return false
+			}
+			return true
+		})
+	}
+	walk(f.Body, nil)
+	for _, bs := range branches {
+		// guarded (directly or through a flag) by a comparison with until?
+		var cmp *ast.BinaryExpr
+		truth := true
+		for _, fc := range guards[bs] {
+			e := core.Unparen(fc.Expr)
+			t := fc.Truth
+			// a boolean flag assigned once from a comparison
+			if id, isId := e.(*ast.Ident); isId {
+				if d := singleDef(f, info.Uses[id]); d != nil {
+					e = core.Unparen(d)
+				}
+			}
+			be, isB := e.(*ast.BinaryExpr)
+			if !isB || !(mentionsAny(info, be.X, tu, false) || mentionsAny(info, be.Y, tu, false)) {
+				continue
+			}
+			switch be.Op {
+			case token.LSS, token.LEQ, token.GTR, token.GEQ:
+				cmp, truth = be, t
+			}
+		}
+		if cmp == nil {
+			continue
+		}
+		n++
+		// normalise to `slot OP until` holding on this path
+		op := cmp.Op
+		if mentionsAny(info, cmp.X, tu, false) { // until OP slot  ->  slot OP' until
+			op = map[token.Token]token.Token{token.LSS: token.GTR, token.GTR: token.LSS, token.LEQ: token.GEQ, token.GEQ: token.LEQ}[op]
+		}
+		if !truth {
+			op = map[token.Token]token.Token{token.LSS: token.GEQ, token.GEQ: token.LSS, token.GTR: token.LEQ, token.LEQ: token.GTR}[op]
+		}
+		k := fmt.Sprintf("%s#stop@%d-only-strictly-below-until", f.Key, n)
+		r.Check(op == token.LSS, rule, k, pos(r, bs), "the walk is abandoned only after an entry strictly below the lower bound was seen",
+			"the walk is abandoned under ["+core.ExprStr(cmp)+"], which also holds for an entry of the slot `until` itself: entries of that slot in the next batch are never read and are missing from the answer")
+	}
+	if n == 0 {
+		r.Undecided(rule, f.Key+"#stops", posP(r, f.Pos()), "no loop exit guarded by the lower bound found")
+	}
 }
